@@ -52,8 +52,8 @@ fn dec(v: u32, m: u8) -> Decimal {
 
 pub fn run_c24(cli: &Cli) -> Report {
     let mut rep = Report::new(cli, "exploration");
-    rep.rule("E1 on the real PriceValidator / SmallPrices (through visibility hooks): (a) age and future rules over boundary alphabets of clock, oracle timestamp offset, timestamp adjustment, max age and future excess (i64/u64/u32 limits) against the statement evaluated in i128; (b) deviation rule over dense prices x reference x factors x multipliers; (c) timestamp-range rule over all pairs/triples of validated timestamps; (d) well-formedness (0 < min <= max, equal multipliers) over a dense grid; non-trivial = the validator accepted the price and the acceptance was compared with the statement");
-    rep.assume("the expected-provider/feed clause and clearing of the oracle after use live in instruction handlers (set_prices_from_price_feed, with_prices_opts) and are covered by the instruction-level explorations, not here");
+    rep.rule("E1 on the real PriceValidator / SmallPrices (through visibility hooks): (a) age and future rules over boundary alphabets of clock, oracle timestamp offset, timestamp adjustment, max age and future excess (i64/u64/u32 limits) against the statement evaluated in i128; (b) deviation rule over dense prices x reference x factors x multipliers; (c) timestamp-range rule over all pairs/triples of validated timestamps; (d) well-formedness (0 < min <= max, equal multipliers) over a dense grid; non-trivial = the validator accepted the price and the acceptance was compared with the statement; (e) see assumptions");
+    rep.assume("(e) instruction level: execute_deposit over all pairs of eight feed kinds (good, stale, future, far from the other feed, wrong provider, wrong feed id, inverted, zero) x three operation kinds (completes, fails softly, fails hard): a deposit is executed only with two good feeds, and the oracle account as the program leaves it in memory on return (observed also for failed, uncommitted instructions) is byte-identical to a cleared oracle; svm-lite runtime trusted");
     let th = cli.tier.thorough();
     if let Some(rv) = &cli.replay {
         rep.sample(json!({"note": "C24 cases are closed-form: re-run the quick tier", "case": rv}));
@@ -227,6 +227,7 @@ pub fn run_c24(cli: &Cli) -> Report {
             }
         }
     });
+    instruction_use(&mut rep);
     rep
 }
 
@@ -455,4 +456,124 @@ pub fn run_c25(cli: &Cli) -> Report {
         }
     }
     rep
+}
+
+// ------------------------------------------------------------------ C24 (e): the oracle as instructions use it
+
+/// how a feed account deviates from a fresh, well-formed feed of the expected provider
+#[derive(Clone, Copy, Debug, PartialEq, Eq)]
+enum FeedKind {
+    Good,
+    /// older than the maximum age
+    Stale,
+    /// published after the clock (no future excess allowed by default)
+    Future,
+    /// fresh, but further from the other feed than the allowed timestamp range
+    FarFromOther,
+    /// another provider than the token config expects
+    WrongProvider,
+    /// a feed id the token config does not list
+    WrongFeedId,
+    /// min > max
+    Inverted,
+    /// a zero price
+    Zero,
+}
+
+/// E3/E1: execute_deposit over feed pairs x operation kinds; whenever a feed is not acceptable the instruction must
+/// fail; in every case the oracle account, as the program left it in memory on return, is cleared
+pub fn instruction_use(rep: &mut Report) {
+    use crate::world::{self, feed_account, W};
+    use FeedKind::*;
+    let (mut db, w) = world::build();
+    W::set_time(10_000);
+    w.set_feeds(&mut db, 10_000, (12_0000_0000, 12_0000_0000), (1_0000_0000, 1_0000_0000));
+    let seed = [9u8; 32];
+    w.create_deposit(&mut db, &w.m1, w.user2, seed, 5_000_000, 60_000_000, 0, w.user2).expect("seed create");
+    w.execute_deposit(&mut db, &w.m1, w.user2, seed, w.keeper, true).expect("seed execute");
+    // the cleared oracle, byte for byte, after a clean use
+    let cleared = db.get(&w.oracle).data;
+    let kinds = [Good, Stale, Future, FarFromOther, WrongProvider, WrongFeedId, Inverted, Zero];
+    let mut cases = vec![];
+    for ka in kinds {
+        for kb in kinds {
+            for op in 0..3u8 {
+                cases.push((ka, kb, op));
+            }
+        }
+    }
+    let counters = e1::run(rep, "oracle use by execute_deposit: feed pairs x operation kinds", &cases, |&(ka, kb, op), sink| {
+        let now = 10_000i64;
+        W::set_time(now);
+        let mut d = db.clone();
+        let n = [0x24u8; 32];
+        // op 0: reachable; 1: unreachable minimum, soft failure; 2: unreachable minimum, hard failure
+        let min_out = if op == 0 { 0 } else { u64::MAX };
+        if w.create_deposit(&mut d, &w.m1, w.user, n, 1_000_000, 12_000_000, min_out, w.user).is_err() {
+            sink.case(false);
+            return;
+        }
+        let mk = |kind: FeedKind, token: &Pubkey, feed_id: &Pubkey, price: u128| {
+            let (ts, provider, fid, min, max) = match kind {
+                Good => (now, 0u8, *feed_id, price, price),
+                Stale => (now - 3_601, 0, *feed_id, price, price),
+                Future => (now + 1, 0, *feed_id, price, price),
+                FarFromOther => (now - 301, 0, *feed_id, price, price),
+                WrongProvider => (now, 1, *feed_id, price, price),
+                WrongFeedId => (now, 0, crate::svm::addr("c24-other-feed-id"), price, price),
+                Inverted => (now, 0, *feed_id, price * 2, price),
+                Zero => (now, 0, *feed_id, 0, 0),
+            };
+            feed_account(&w.store, token, &fid, provider, ts, (ts.max(0) as u64) / 100, min, (min + max) / 2, max, 8, true)
+        };
+        d.set(w.feed_a, mk(ka, &w.a, &w.feed_id_a, 12_0000_0000));
+        d.set(w.feed_b, mk(kb, &w.b, &w.feed_id_b, 1_0000_0000));
+        // the deposit was created at `now`: prices must not be older than the request, so only Good / Future / wrong-* feeds are
+        // recent enough; everything else must be refused at the latest by the time validation
+        crate::svm::observe(&[w.oracle]);
+        let r = w.execute_deposit(&mut d, &w.m1, w.user, n, w.keeper, op == 2);
+        let seen = crate::svm::take_observed();
+        let rp = || json!({"section": "instruction_use", "feed_a": format!("{ka:?}"), "feed_b": format!("{kb:?}"), "op": op});
+        let acceptable = |k: FeedKind| k == Good;
+        let both = acceptable(ka) && acceptable(kb);
+        sink.case(both);
+        if !both && r.is_ok() {
+            // the instruction may only succeed without using the prices (cancelling the deposit); a completed deposit used them
+            use gmsol_store::states::common::action::Action;
+            let st = d.pod::<gmsol_store::states::Deposit>(&w.deposit_pda(&w.user, &n)).and_then(|x| x.header().action_state().ok());
+            if st == Some(gmsol_utils::action::ActionState::Completed) {
+                sink.fail("C24/unacceptable_feed_used_for_execution", format!("feeds ({ka:?}, {kb:?}): the deposit was executed"), rp());
+            } else {
+                sink.count("unacceptable_feed_cancelled_softly");
+            }
+        }
+        if both {
+            match (op, &r) {
+                (0, Ok(())) | (1, Ok(())) | (2, Err(_)) => sink.count("good_feeds_outcome_as_expected"),
+                _ => sink.fail("C24/machinery_unexpected_outcome", format!("good feeds, op {op}: {r:?}"), rp()),
+            }
+        }
+        if r.is_err() {
+            sink.count("instruction_failed");
+        }
+        match seen.get(&w.oracle) {
+            None => sink.fail("C24/machinery_oracle_not_observed", "the oracle account was not observed".into(), rp()),
+            Some(data) => {
+                if *data != cleared {
+                    let diff: Vec<usize> = (0..data.len().min(cleared.len())).filter(|i| data[*i] != cleared[*i]).take(8).collect();
+                    sink.fail(if r.is_ok() { "C24/oracle_not_cleared_after_use" } else { "C24/oracle_not_cleared_after_failed_use" }, format!("feeds ({ka:?}, {kb:?}), op {op}, instruction result {:?}: the oracle account differs from the cleared oracle at bytes {diff:?}", r.as_ref().map_err(|e| format!("{e:?}"))), rp());
+                }
+                sink.count("oracle_observed");
+            }
+        }
+        // and in the committed state
+        if d.get(&w.oracle).data != cleared {
+            sink.fail("C24/oracle_not_cleared_after_use", format!("feeds ({ka:?}, {kb:?}), op {op}: committed oracle account is not cleared"), rp());
+        }
+    });
+    for k in ["good_feeds_outcome_as_expected", "instruction_failed", "oracle_observed"] {
+        if counters.get(k).copied().unwrap_or(0) == 0 {
+            rep.machinery(format!("vacuous oracle-use section: {k} never occurred"));
+        }
+    }
 }
